@@ -519,7 +519,7 @@ func (c *checker) checkC14(plan *GCPlan, rep *GCReport) {
 // released and re-acquired by design).
 func (c *checker) checkLockExclusion() {
 	for _, r := range c.trace {
-		if r.Fate != simkit.Deliver && r.Fate != simkit.TopoSplit && r.Fate != simkit.TopoSplitAfter && r.Fate != simkit.TopoLeader {
+		if r.Fate != simkit.Deliver && r.Fate != simkit.TopoSplit && r.Fate != simkit.TopoSplitAfter && r.Fate != simkit.TopoMergeAfter && r.Fate != simkit.TopoLeader {
 			return
 		}
 	}
